@@ -363,7 +363,13 @@ def strip(t, depth=0):
             return ("await", fut)
         return ("payload", t[1], inner)
     if k == "field":
-        return ("field", strip(t[1], depth + 1), t[2])
+        inner = strip(t[1], depth + 1)
+        if inner[0] == "agg":
+            # a field read of a value built right here is that field's operand
+            for f, v in inner[3]:
+                if f == t[2]:
+                    return strip(v, depth + 1)
+        return ("field", inner, t[2])
     if k == "phi":
         xs = []
         for x in t[1]:
